@@ -6,7 +6,7 @@ declare -A EXTRA=( [seeded3/C03_2]="C03 C08" [seeded3/C19_1]="C19 C01" [seeded4/
   [seeded5/C05_1]="C05 C12" [seeded5/C17_1]="C17 C08" [seeded5/C19_2]="C19 C01 C11" [seeded5/C19_1]="C19 C01" [seeded5/C20_2]="C20 C12" [seeded5/C03_2]="C03 C14" [seeded5/C18_2]="C18 C13" [seeded5/C02_2]="C02 C11" [seeded5/C15_1]="C15 C14"
   [seeded6/C18_2]="C18 C04" [seeded6/C19_1]="C19 C01" [seeded6/C19_2]="C19 C01" )
 LIST=/tmp/reseed_list.$$; : > $LIST
-for r in seeded seeded2 seeded3 seeded4 seeded5 seeded6; do
+for r in seeded seeded2 seeded3 seeded4 seeded5 seeded6 seeded7; do
   for d in $(ls $r | grep '^C[0-9][0-9]_'); do
     p=${d%%_*}
     if [ -n "$ONLY" ] && ! grep -q "^$r/$d " "$ONLY"; then continue; fi
@@ -15,5 +15,5 @@ for r in seeded seeded2 seeded3 seeded4 seeded5 seeded6; do
 done
 cat $LIST | xargs -P ${1:-4} -L 1 ./reseed.sh
 rm -f $LIST
-for r in seeded seeded2 seeded3 seeded4 seeded5 seeded6; do python3 $r/mkmeta.py $r > /dev/null 2>&1; done
+for r in seeded seeded2 seeded3 seeded4 seeded5 seeded6 seeded7; do python3 $r/mkmeta.py $r > /dev/null 2>&1; done
 echo ALLDONE
